@@ -38,7 +38,7 @@ Definition ignored_exit : exn := mk_exn RuntimeErrorC [VStr "generator ignored G
 Definition start (p : prog value) (r : resume) : prog value :=
   match r with Send _ => p | Throw e => Raise e | Close => Ret VNone end.
 Definition finished (r : resume) : gen_res :=
-  match r with Send _ => GRaise stop_iteration | Throw e => GRaise e | Close => GStop VNone end.
+  match r with Send _ => GStop VNone | Throw e => GRaise e | Close => GStop VNone end.
 
 (* the result of handling one effect: it completed with a value, it suspended (a coroutine awaiting), or fuel ran out *)
 Inductive eres (X : Type) :=
@@ -94,6 +94,8 @@ Section Interp.
             end
           end
         end
+    | Spawn f a kw =>
+        let (h, w1) := new_gen (GNew (Vis (Call f a kw) (fun r => lift_res r))) w in EVal (VGen h) w1
     | GenResume h r =>
         match rec with None => EOut | Some run =>
           let go (p : prog value) :=
